@@ -357,10 +357,13 @@ def rd_stats(w, ev, slot, t, ref):
         w.fail('summary.stats', 'per-sample counts %r, expected %r'
                % (gotper, want))
     vals = np.array([want[k] for k in ref.ids[1]])
+    if not np.isfinite(vals).all():
+        return 'stats:overflow'     # a total overflowed: outside the domain
     for nm, g, x in (('min', mn, vals.min()), ('max', mx, vals.max()),
                      ('median', med, np.median(vals)),
                      ('mean', mean, vals.mean())):
-        if not np.isclose(float(g), float(x), rtol=1e-9, atol=0.0):
+        if not np.isclose(float(g), float(x), rtol=1e-9,
+                          atol=1e-9 * float(np.abs(vals).sum())):
             w.fail('summary.stats', '%s = %r, expected %r' % (nm, g, x))
     return 'stats'
 
